@@ -274,10 +274,26 @@ def run_case(case):
         big[sl] = x0
         x0 = big[sl]
         kw["x"] = x0
+    # the same array object handed over twice: as initial x and as the prior z ("regularise
+    # towards the starting point"), or as initial x and as the data y ("start from the data",
+    # shapes permitting).  x is updated in place by design; the problem is still the one defined
+    # by the values at call time.
+    alias = None
+    y_call = y
+    if sum(case["rs"]) % 6 == 1 and layout not in (1, 2) and g[0] != "box":
+        if z is not None and lam > 0:
+            kw["x"] = x0 = z
+            alias = "z-is-x"
+        elif list(yshape) == list(xshape):
+            y_call = y.copy()
+            kw["x"] = x0 = y_call
+            alias = "x-is-y"
+        if alias:
+            sig += "|" + alias
     excluded = (eff == "ConjugateGradient" and proxg is not None) or \
                (eff == "GradientMethod" and G is not None)
     try:
-        app = sp.app.LinearLeastSquares(A, y, **kw)
+        app = sp.app.LinearLeastSquares(A, y_call, **kw)
         xr = app.run()
     except Exception as e:
         inn = e
@@ -330,6 +346,8 @@ def run_case(case):
         kw2.update(lamda=lam2)
         for key in ("alpha", "tau", "sigma", "x", "P"):
             kw2.pop(key, None)
+        if alias == "z-is-x":
+            kw2["z"] = zv.reshape(z.shape).copy()   # (the caller's z now holds the solution)
         if G is None:
             xref2, cert2 = OPT.solve_composite(Am, yv, g, mu=lam2, z=zv)
             low2 = OPT.objective(Am, yv, g, xref2, mu=lam2, z=zv)
